@@ -1,25 +1,50 @@
 import ApdVerif.Model.Dispatch
 import ApdVerif.Spec.Defs
+import ApdVerif.Lemmas.C03Lemmas
 /-!
 # C03 — traps turn raised conditions into errors and never change or hide results
 -/
 namespace Apd.Props
-open Apd
+open Apd Apd.C03L
 
 def withTraps (c : Ctx) (t : Cond) : Ctx := { c with traps := t }
 
+theorem withTraps_eq_wt (c : Ctx) (t : Cond) : withTraps c t = wt c t := rfl
+
 /-- algebra of `GoError`: an error iff a system limit was hit or a raised condition is trapped -/
 theorem C03_goError_iff (traps fl : Cond) :
-    goError traps fl ≠ .none ↔ (fl.sysOverflow = true ∨ fl.sysUnderflow = true ∨ (fl &&& traps).any = true) := by
-  sorry
+    goError traps fl ≠ .none ↔ (fl.sysOverflow = true ∨ fl.sysUnderflow = true ∨ (fl &&& traps).any = true) :=
+  goError_iff traps fl
 
 theorem C03_goError_class (traps fl : Cond) :
-    goError traps fl = (if fl.sysOverflow || fl.sysUnderflow then .sys else if (fl &&& traps).any then .trap else .none) := by
-  sorry
+    goError traps fl = (if fl.sysOverflow || fl.sysUnderflow then .sys else if (fl &&& traps).any then .trap else .none) :=
+  goError_class traps fl
 
 /-- the single-rounding operations of the protocol -/
 def singleOps : List String :=
   ["add", "sub", "mul", "quo", "quoint", "rem", "abs", "neg", "round", "quantize", "rtie", "rtiv", "reduce", "cmp", "ceil", "floor"]
+
+/-- every single-rounding operation obeys the trap law -/
+theorem single_law (op : String) (hop : op ∈ singleOps) (c : Ctx) (t : Cond) (x y : Dec) (i : Int) :
+    runCtxOp op (wt c t) x y i = (runCtxOp op (wt c {}) x y i).map (retrap t) := by
+  simp only [singleOps, List.mem_cons, List.not_mem_nil, or_false] at hop
+  rcases hop with rfl | rfl | rfl | rfl | rfl | rfl | rfl | rfl | rfl | rfl | rfl | rfl | rfl | rfl | rfl | rfl
+  · exact congrArg some (addOp_wt c t x y false)
+  · exact congrArg some (addOp_wt c t x y true)
+  · exact congrArg some (mulOp_wt c t x y)
+  · exact congrArg some (quoOp_wt c t x y)
+  · exact congrArg some (quoIntegerOp_wt c t x y)
+  · exact congrArg some (remOp_wt c t x y)
+  · exact congrArg some (absOp_wt c t x)
+  · exact congrArg some (negOp_wt c t x)
+  · exact congrArg some (roundOp_wt c t x)
+  · exact congrArg some (quantizeOp_wt c t x i)
+  · exact congrArg some (rtie_wt c t x)
+  · exact congrArg some (rtiv_wt c t x)
+  · exact congrArg some (reduceOp_wt c t x)
+  · exact congrArg some (cmpOp_wt c t x y)
+  · exact congrArg some (ceilOp_wt c t x)
+  · exact congrArg some (floorOp_wt c t x)
 
 /-- For every single-rounding operation, every operand and every context: the destination, the
 flags and the auxiliary result do not depend on the trap set; the error under trap set `t` is the
@@ -29,32 +54,41 @@ theorem C03_single_traps (op : String) (hop : op ∈ singleOps) (c : Ctx) (t : C
     (oT o0 : Out) (hT : runCtxOp op (withTraps c t) x y i = some oT) (h0 : runCtxOp op (withTraps c {}) x y i = some o0) :
     oT.d = o0.d ∧ oT.fl = o0.fl ∧ oT.aux = o0.aux ∧
     oT.err = (if o0.err ≠ .none then o0.err else goError t o0.fl) := by
-  sorry
+  rw [withTraps_eq_wt] at hT h0
+  rw [single_law op hop, h0] at hT
+  simp only [Option.map_some, Option.some.injEq] at hT
+  subst hT
+  exact ⟨rfl, rfl, rfl, rfl⟩
 
 /-! ## ErrDecimal: sticky first error, accumulated flags, skip after error -/
 
-theorem C03_ed_skip (e : ED) (cur : Dec) (op : Ctx → Out) (h : e.failed = true) : e.step cur op = (e, cur) := by
-  sorry
+theorem C03_ed_skip (e : ED) (cur : Dec) (op : Ctx → Out) (h : e.failed = true) : e.step cur op = (e, cur) :=
+  ed_skip e cur op h
 
 theorem C03_ed_run (e : ED) (cur : Dec) (op : Ctx → Out) (h : e.failed = false) :
-    e.step cur op = ({ e with fl := e.fl ||| (op e.c).fl, err := (op e.c).err }, (op e.c).d) := by
-  sorry
+    e.step cur op = ({ e with fl := e.fl ||| (op e.c).fl, err := (op e.c).err }, (op e.c).d) :=
+  ed_run e cur op h
 
 /-- once an error has occurred it stays, and every later destination is left untouched -/
 theorem C03_ed_sticky (e : ED) (cur : Dec) (op : Ctx → Out) (h : e.failed = true) :
     (e.step cur op).1.failed = true ∧ (e.step cur op).2 = cur ∧ (e.step cur op).1.errOf = e.errOf := by
-  sorry
+  rw [ed_skip e cur op h]
+  exact ⟨h, rfl, rfl⟩
 
 /-- flags only accumulate -/
 theorem C03_ed_flags_mono (e : ED) (cur : Dec) (op : Ctx → Out) :
     ((e.step cur op).1.fl &&& e.fl) = e.fl := by
-  sorry
+  cases h : e.failed with
+  | true => rw [ed_skip e cur op h]; exact cond_and_self e.fl
+  | false => rw [ed_run e cur op h]; exact cond_or_and_left e.fl _
 
 /-- an operation whose own outcome carries an error (under the ErrDecimal's context) leaves the
 ErrDecimal failed -/
 theorem C03_ed_records (e : ED) (cur : Dec) (op : Ctx → Out) (h : e.failed = false)
     (herr : (op e.c).err ≠ .none) : (e.step cur op).1.failed = true := by
-  sorry
+  rw [ed_run e cur op h]
+  unfold ED.failed
+  simp [herr]
 
 /-! ## composite functions: an internal failure surfaces as an error -/
 
@@ -62,13 +96,24 @@ theorem C03_ed_records (e : ED) (cur : Dec) (op : Ctx → Out) (h : e.failed = f
 rounded iterate -/
 theorem C03_sqrt_nil_error_means_no_internal_failure (c : Ctx) (x : Dec)
     (hs : rootSpecials c x 2 = none) (h : (sqrtOp c x).err = .none) :
-    ∃ d fl, sqrtOp c x = { d := d, fl := fl, err := .none } ∧ goError c.traps fl = .none := by
-  sorry
+    ∃ d fl, sqrtOp c x = { d := d, fl := fl, err := .none } ∧ goError c.traps fl = .none :=
+  sqrt_nil_error c x hs h
 
 /-- if Sqrt returns a nil error under trap set `t`, the trap-free run returns the same result and flags -/
 theorem C03_sqrt_traps (c : Ctx) (t : Cond) (x : Dec) (h : (sqrtOp (withTraps c t) x).err = .none) :
     (sqrtOp (withTraps c {}) x).d = (sqrtOp (withTraps c t) x).d ∧
-    (sqrtOp (withTraps c {}) x).fl = (sqrtOp (withTraps c t) x).fl := by
-  sorry
+    (sqrtOp (withTraps c {}) x).fl = (sqrtOp (withTraps c t) x).fl :=
+  sqrtOp_traps c t x h
 
 end Apd.Props
+
+#print axioms Apd.Props.C03_goError_iff
+#print axioms Apd.Props.C03_goError_class
+#print axioms Apd.Props.C03_single_traps
+#print axioms Apd.Props.C03_ed_skip
+#print axioms Apd.Props.C03_ed_run
+#print axioms Apd.Props.C03_ed_sticky
+#print axioms Apd.Props.C03_ed_flags_mono
+#print axioms Apd.Props.C03_ed_records
+#print axioms Apd.Props.C03_sqrt_nil_error_means_no_internal_failure
+#print axioms Apd.Props.C03_sqrt_traps
